@@ -258,7 +258,12 @@ func (tx *FnTx) applyContract(c *FnContract, key string, names []string, args []
 			}
 			panic(specErr{fmt.Sprintf("call to %s: ensures %s: %v", key, en.Label, err)})
 		}
-		tx.assumeReach(s)
+		if c.Pure && !c.PureHeap && len(c.Requires) == 0 {
+			// a fact about a pure function without precondition holds for every application: no reachability guard
+			tx.assume(s)
+		} else {
+			tx.assumeReach(s)
+		}
 	}
 	return res, post
 }
